@@ -88,6 +88,9 @@ class FsSeam:
         # a fault names its call by (issuing site, operation, project-relative path, n-th such call): robust
         # against the removal of unrelated constructs while a failing plan is minimised
         self.faults = {(f["site"], f["op"], f["rel"], int(f.get("nth", 0))): f for f in (faults or [])}
+        # a *sticky* fault persists: it also hits every later call of the same kind on the same path (an outage or
+        # a permission problem does not go away when the code retries)
+        self.sticky = {(f["site"], f["op"], f["rel"]): f for f in (faults or []) if f.get("sticky")}
         self._occ: dict = {}
         self.log = log
         self.clock = clock
@@ -152,6 +155,10 @@ class FsSeam:
         nth = self._occ.get(key, 0)
         self._occ[key] = nth + 1
         fault = None if self.observe_only else self.faults.get((site, op, rel, nth))
+        if fault is None and not self.observe_only:
+            st = self.sticky.get(key)
+            if st is not None and nth > int(st.get("nth", 0)):
+                fault = st
         rec = {"i": idx, "site": site, "op": op, "path": _path_class(rel), "rel": rel, "nth": nth,
                "depth": _include_depth()}
         self.trace.append(rec)
